@@ -232,7 +232,8 @@ def run_case(desc, ctx):
             v = {"n_modes_0": 0, "n_modes_neg": -1, "n_modes_1.5": 1.5, "n_modes_str": "3", "n_modes_0.0": 0.0, "n_modes_nan": float("nan"),
                  # (multi.CCA solves a regularised generalised eigenproblem over all features: its documented bound is the
                  #  smallest feature count of the views, not the number of samples)
-                 "n_modes_rank+1": (min(L.n_features(l) for l in desc["lays"]) if multi else
+                 #  cross-set models without PCA decompose the p1 x p2 cross-covariance matrix: the bound is min(p1, p2))
+                 "n_modes_rank+1": (min(L.n_features(l) for l in desc["lays"]) if (multi or cross) else
                                     min(L.n_samples(desc["lays"][0]), *[L.n_features(l) for l in desc["lays"]])) + 1}[fault]
             if multi and fault in ("n_modes_1.5", "n_modes_0.0", "n_modes_nan", "n_modes_str"):
                 ctx.refused("not applicable: multi.CCA documents integer n_modes only")
